@@ -36,6 +36,16 @@ check('C15', 'model_checking',
       'bounded: reference days, ranges and candidate pools are the finite sets of the cfg; Calendar.tla is model-checked for 1900..2100 (MC_Calendar); a call that does not return within 10 s counts as a violation (NoReturn)',
       'TLA+ scenario generator; spec->code replay; TLC trace validation; TLC model checking of the collapse loop')
 
+check('C16', 'model_checking',
+      'TLC model-checks character-at-a-time transcriptions of both tokenizers against the functional tokenisation of Matcher.tla for every class '
+      'string up to MaxLen, and the trie insert/find loops against brute-force occurrences for all small dictionaries and queries; every enumerated '
+      'class string (concretised from a closed code-point pool) and every (dictionary, query) state is replayed into SimpleTokenizer / '
+      'NumberWithUnitTokenizer / StringMatcher (list, ids and dict forms), plus seeded random dictionaries (<=30 phrases) and queries (<=40 chars); '
+      'TLC judges every observation (Trace_Matcher: token conditions, no-miss/no-extra occurrences on the observed token boundaries, text, ids).',
+      'DESIGN.md section 4, C16',
+      'exhaustive only up to MaxLen 4 (quick) / 6 (thorough) class strings and 2-phrase dictionaries; beyond that seeded sampling; characters outside the closed pool are not exercised',
+      'TLC model checking of tokenizer/trie transcriptions; spec->code replay of every state; TLC trace validation')
+
 NOT_APPLICABLE['C18'] = ('equates two sets of static files through the resource generator: no state, transition or case analysis for a TLA+ '
                          'specification to capture; the generator also cannot run here (ruamel.yaml is neither installed nor in the wheelhouse). '
                          'See DESIGN.md section 6.')
